@@ -2450,11 +2450,9 @@ impl Server {
             }
         }
         
-        if results.is_empty() {
-            Ok(RespFrame::null_array())
-        } else {
-            Ok(RespFrame::Array(Some(results)))
-        }
+        // Nothing to pop (missing key, empty set, count 0) is an empty array, as in Redis and as
+        // redis.call answers it
+        Ok(RespFrame::Array(Some(results)))
     }
     
     /// Handle ZPOPMAX command  
@@ -2498,11 +2496,9 @@ impl Server {
             }
         }
         
-        if results.is_empty() {
-            Ok(RespFrame::null_array())
-        } else {
-            Ok(RespFrame::Array(Some(results)))
-        }
+        // Nothing to pop (missing key, empty set, count 0) is an empty array, as in Redis and as
+        // redis.call answers it
+        Ok(RespFrame::Array(Some(results)))
     }
     
     /// Handle PING command
